@@ -108,6 +108,9 @@ class Scanner:
             if base is None:
                 return None
             return sp.Indexed(sp.IndexedBase(base), *idx)
+        if k == "CXXOperatorCallExpr" and n.get("op") == "()" and n.get("args"):
+            # functor call (e.g. a random distribution): an uninterpreted, fresh value per evaluation site
+            return sp.Symbol("%s()@%d" % (A.show(n["args"][0]).replace(" ", ""), n["id"]), real=True)
         if k == "CXXOperatorCallExpr" and n.get("op") == "*" and len(n.get("args", [])) == 1:
             return sp.Symbol("*" + A.show(n["args"][0]), real=True)
         if k == "UnaryOperator" and n["op"] == "*":
